@@ -12,7 +12,8 @@ EXPLANATION = (
     "every expression position and the built-in argument contract (rules shared with C08).  (R4) "
     "by-reference arguments are matched by type equality, by-value ones by castability.  (R5) every "
     "conditional construct reaches the condition-type check, which accepts exactly numeric types.  (R10) no function reads the element-type field of an ArrayElement node without its index list (a whole array `A()` is not one of its elements); (R11) the by-value argument check accepts an array only for an array parameter of the very same element type, for all 30 pairs (there is no conversion for arrays); (R12) the number of arguments and the number of parameters of a user-defined subprogram are compared for equality, not order."
-    " (R16) every match of the VM on the variant of a value treats the four numeric variants alike with respect to raising Type mismatch; (R17) the FOR checker applies the cast-compatibility predicate to the lower bound, the upper bound and the step.")
+    " (R16) every match of the VM on the variant of a value treats the four numeric variants alike with respect to raising Type mismatch; (R17) the FOR checker applies the cast-compatibility predicate to the lower bound, the upper bound and the step."
+    " (R18 = C09.R18) no set or map keyed by raw text.")
 NOT_DECIDED = [
     "stability of the verdict under renaming of identifiers",
     "that one local ill-forming edit is rejected *in the edited statement* (position clause)",
